@@ -275,7 +275,10 @@ Definition doc_out_valid_agrees (pd : program * doc) : bool :=
   let (p, d) := pd in
   match d_out d with
   | None => true
-  | Some o => Bool.eqb (svalid (fuel_of o) (p_schema p) (root_type p) (p_root_nillable p) None None o) (d_out_valid d)
+  | Some o =>
+      (* lxml refusing what the typed validity accepts would be a defect of the reader or of Spec/XsdCm.v; the other
+         direction is libxml2's known laxity (bounded / nested repetitions, wildcards inside repeated sequences) *)
+      implb (svalid (fuel_of o) (p_schema p) (root_type p) (p_root_nillable p) None None o) (d_out_valid d)
   end.
 
 (* 2. the binding abstract: which instances does the metadata refuse?  (type id, code):
